@@ -171,4 +171,41 @@ theorem rkyv_ord_never_panics (prof : Profile) (x y : Dec) (hx : Dom x) (hy : Do
 example : (Gen.K.decimal_resolve Profile.dev ⟨-50, 2⟩ >>= fun a => Gen.K.archived_cmp_decimal Profile.dev a ⟨-5, 1⟩) = .ok (some .eq) := by
   decide
 
+/-! ### algebraic laws
+Model-level corollaries about `partialCmp` / `decimalEq` themselves. -/
+
+/-- swapping the operands swaps the result of `partial_cmp` -/
+theorem partial_cmp_swap (x y : Dec) (hx : Dom x) (hy : Dom y) :
+    partialCmp y x = (partialCmp x y).map Ordering.swap := by
+  rw [partial_cmp_spec x y hx hy, partial_cmp_spec y x hy hx, value_order_antisymm]
+  rfl
+
+/-- `x < y ↔ y > x` -/
+theorem lt_iff_gt (x y : Dec) (hx : Dom x) (hy : Dom y) :
+    partialCmp x y = some .lt ↔ partialCmp y x = some .gt := by
+  rw [partial_cmp_swap x y hx hy, partial_cmp_spec x y hx hy]
+  generalize Spec.cmp x.coeff x.nfrac y.coeff y.nfrac = o
+  cases o <;> simp [Ordering.swap]
+
+/-- `==` is `partial_cmp(..) == Some(Equal)` -/
+theorem eq_iff_cmp_eq (x y : Dec) (hx : Dom x) (hy : Dom y) :
+    decimalEq x y = true ↔ partialCmp x y = some .eq := by
+  rw [eq_spec x y hx hy, partial_cmp_spec x y hx hy]
+  generalize Spec.cmp x.coeff x.nfrac y.coeff y.nfrac = o
+  cases o <;> simp
+
+/-- `==` is symmetric and reflexive -/
+theorem decimal_eq_symm (x y : Dec) (hx : Dom x) (hy : Dom y) : decimalEq x y = decimalEq y x := by
+  rw [eq_spec x y hx hy, eq_spec y x hy hx, value_order_antisymm x.coeff x.nfrac y.coeff y.nfrac]
+  generalize Spec.cmp x.coeff x.nfrac y.coeff y.nfrac = o
+  cases o <;> rfl
+
+theorem decimal_eq_refl (x : Dec) (hx : Dom x) : decimalEq x x = true ∧ partialCmp x x = some .eq := by
+  rw [eq_spec x x hx hx, partial_cmp_spec x x hx hx, value_order_refl]
+  exact ⟨rfl, rfl⟩
+
+example : partialCmp ⟨-25, 1⟩ ⟨-2499, 3⟩ = some .lt ∧ partialCmp ⟨-2499, 3⟩ ⟨-25, 1⟩ = some .gt := by decide
+example : decimalEq ⟨-25, 1⟩ ⟨-2500, 3⟩ = true ∧ partialCmp ⟨-25, 1⟩ ⟨-2500, 3⟩ = some .eq ∧
+    decimalEq ⟨I128_MAX, 0⟩ ⟨I128_MAX, 18⟩ = false ∧ partialCmp ⟨I128_MAX, 0⟩ ⟨I128_MAX, 18⟩ = some .gt := by decide
+
 end Fpdec.Props.C08
